@@ -268,6 +268,7 @@ impl PStr {
   pub const MAP: PStr = Self::three_letter_literal(b"map");
   pub const FOLD: PStr = Self::four_letter_literal(b"fold");
   pub const UNWRAP_I31: PStr = Self::nine_letter_literal(b"unwrapI31");
+  pub const BOX_INT: PStr = Self::six_letter_literal(b"boxInt");
 
   pub const STD: PStr = Self::three_letter_literal(b"std");
   pub const TUPLES: PStr = Self::six_letter_literal(b"tuples");
